@@ -27,7 +27,8 @@ CHECKS = {
     },
 }
 
-MUX = [G + "mux_run.go", G + "mux_stubs.go"]
+MUX0 = [G + "mux_run.go", G + "mux_stubs.go"]
+MUX = MUX0 + [G + "mux_stub_findcompat.go"]
 MUX_STUBS = [
     "mediacommon boundary stubbed (trusted: its Marshal/Unmarshal are mutually inverse): fmp4.Part/Init.Marshal+Unmarshal, PartSample.FillH264, "
     "h264.DTSExtractor (dts = pts - harness offset), mpegts.Writer.*, h264.SPS parser",
@@ -190,4 +191,32 @@ CHECKS["C16"] = {
         {"name": "run.mv.layout", "files": C16F, "fn": "VerifH_C16_layout", "workers": 16, "reach": ["accepted", "rejected", "end"]},
         {"name": "lemma.bandwidth", "files": C16F, "fn": "VerifH_C16_bandwidth", "workers": 8, "params_quick": {"N": 3}, "params_thorough": {"N": 4}, "qtimeout": 60000, "reach": ["computed"]},
     ] + mux_runs(),
+}
+
+C03L = [G + "c03_lemmas.go"]
+CHECKS["C03"]["runs"] = [
+    {"name": "lemma.ts2dur", "files": C03L, "fn": "VerifH_C03_ts2dur", "workers": 10, "reach": ["end"]},
+    {"name": "lemma.round", "files": C03L, "fn": "VerifH_C03_roundLemma", "bv": True, "solver": "cvc5", "workers": 1, "qtimeout": 300000, "reach": ["end"], "native": False},
+    {"name": "lemma.ceil", "files": C03L, "fn": "VerifH_C03_ceilLemma", "bv": True, "solver": "cvc5", "workers": 1, "qtimeout": 300000, "reach": ["end"], "native": False},
+    {"name": "lemma.targetDuration.table", "files": C03L, "fn": "VerifH_C03_targetDuration", "workers": 1, "reach": ["end"]},
+] + CHECKS["C03"]["runs"]
+CHECKS["C03"]["bounds"] = {k: dict(v, **{"lemma.ts2dur": "10 clock rates, timestamps in [0,2^33] and [-10 s,0]", "lemma.round": "0 <= d < 2^17 s (bit-vector + IEEE-754 double, cvc5)",
+                                       "lemma.ceil": "0 <= d <= 2^33 ns (bit-vector + IEEE-754 double, cvc5)"}) for k, v in MUX_BOUNDS.items()}
+CHECKS["C03"]["assumptions"] = MUX_STUBS + ["lemma.round / lemma.ceil are stated over the stdlib expression time.Duration.Seconds() = float64(sec) + float64(nsec)/1e9 on pre-split operands "
+                                            "(mixing the integer division with floating point in one query does not finish in any installed solver)"]
+
+C19F = [G + "c19_parts.go", G + "c06_reload.go"] + MUX0
+CHECKS["C19"] = {
+    "technique": "lemma on the real findCompatiblePartDuration with symbolic PartMinDuration per constant sample duration; real Low-Latency run with symbolic PartMinDuration",
+    "bounds": {"quick": {"lemma.compat": "first 14 sample durations of the table (30/29.97/60/25/24/50 fps, AAC 48k/44.1k, Opus 10/20/40 ms, 120/100/90 fps), PartMinDuration symbolic in [50 ms, 2 s]",
+                         "run": "K=8 frames at {30, 29.97, 60, 10} fps, key frame every 3..5 frames, PartMinDuration symbolic in [50, 400] ms, SegmentMinDuration 500 ms"},
+               "thorough": {"lemma.compat": "all 37 sample durations (1..120 fps incl. 1001-based, AAC at 11 rates, Opus 2.5..60 ms)", "run": "K=14 frames"}},
+    "assumptions": MUX_STUBS[:3] + ["constant sample duration (the statement's premise)", "video-led streams in the run; audio-only regularity is covered by the lemma's AAC/Opus entries"],
+    "outside": ["sample durations outside the table", "segments longer than K frames"],
+    "runs": [
+        {"name": "lemma.compat", "files": C19F, "fn": "VerifH_C19_compat", "workers": 16, "params_quick": {"TABLE": 14}, "params_thorough": {"TABLE": 37}, "reach": ["computed"],
+         "budget_quick": 900, "budget_thorough": 7200},
+        {"name": "run.ll.parts", "files": C19F, "fn": "VerifH_C19_run", "workers": 16, "params_quick": {"K": 8}, "params_thorough": {"K": 14}, "reach": ["non-final-part", "end"],
+         "budget_quick": 900, "budget_thorough": 7200},
+    ],
 }
